@@ -13,9 +13,16 @@
 package main
 
 import (
+	"bytes"
+	"context"
+	"encoding/json"
 	"fmt"
 	"os"
+	"os/exec"
+	"path/filepath"
+	"regexp"
 	"strings"
+	"time"
 
 	"ssvharness/internal/common"
 )
@@ -84,6 +91,89 @@ func runF8(c F8Case, dns *scriptDNS, rep *common.Report) error {
 	return nil
 }
 
+// raceRun (thorough tier): build this engine with -race against the same repository, run the udprelay engine in a
+// child process for a bounded time, and turn every data-race report whose stacks touch the repository's code into
+// an oracle failure (key race:<function>). Races confined to the harness are reported as divergences (= fix the check).
+func raceRun(o *common.Options, rep *common.Report) {
+	t0 := time.Now()
+	tmp, err := os.MkdirTemp("", "c11race")
+	if err != nil {
+		rep.Note("race: %v", err)
+		return
+	}
+	defer os.RemoveAll(tmp)
+	bin := filepath.Join(tmp, "corr_c11_race")
+	args := []string{"build", "-race", "-tags", "verif", "-o", bin}
+	if repo := os.Getenv("VERIF_REPO"); repo != "" && repo != "/repo" {
+		tag := regexp.MustCompile(`\W+`).ReplaceAllString(repo, "_")
+		args = append(args, "-modfile", "go.scratch."+tag+".mod")
+	}
+	args = append(args, "./cmd/corr_c11")
+	ctx, cancel := context.WithTimeout(context.Background(), 170*time.Second)
+	defer cancel()
+	build := exec.CommandContext(ctx, "go", args...)
+	env := []string{"GOFLAGS=-mod=mod", "GOPROXY=off", "GOTOOLCHAIN=auto"}
+	for _, e := range os.Environ() {
+		if !strings.HasPrefix(e, "GOSUMDB=") && !strings.HasPrefix(e, "GOFLAGS=") && !strings.HasPrefix(e, "GOPROXY=") {
+			env = append(env, e)
+		}
+	}
+	build.Env = env
+	if out, err := build.CombinedOutput(); err != nil {
+		rep.Note("race: -race build not available (%v): %s", err, strings.TrimSpace(string(out[max(0, len(out)-300):])))
+		return
+	}
+	buildT := time.Since(t0)
+	out := filepath.Join(tmp, "rep.json")
+	ctx2, cancel2 := context.WithTimeout(context.Background(), 125*time.Second)
+	defer cancel2()
+	child := exec.CommandContext(ctx2, bin, "--tier", "quick", "--seed", fmt.Sprint(o.Seed+1000), "--out", out)
+	for _, e := range os.Environ() {
+		if !strings.HasPrefix(e, "C11_RACE_ONLY=") {
+			child.Env = append(child.Env, e)
+		}
+	}
+	child.Env = append(child.Env, "C11_RACE_CHILD=1", "GORACE=halt_on_error=0 exitcode=0")
+	var stderr bytes.Buffer
+	child.Stderr = &stderr
+	child.Stdout = &stderr
+	cerr := child.Run()
+	rep.Count("race:child-runs")
+	var cr common.Report
+	if b, err := os.ReadFile(out); err == nil && json.Unmarshal(b, &cr) == nil {
+		rep.Distribution["race:relay-runs"] += cr.Evaluations
+		for _, f := range cr.OracleFailures {
+			f.Key = "race-build:" + f.Key
+			rep.Fail(f)
+		}
+	} else if cerr != nil {
+		rep.Note("race: child ended without a report: %v", cerr)
+	}
+	reports := strings.Split(stderr.String(), "WARNING: DATA RACE")
+	fn := regexp.MustCompile(`github\.com/database64128/shadowsocks-go/([\w/]+)\.([\w\.\(\)\*]+)`)
+	seen := map[string]bool{}
+	for _, r := range reports[1:] {
+		if end := strings.Index(r, "=================="); end >= 0 {
+			r = r[:end]
+		}
+		m := fn.FindStringSubmatch(r)
+		if m == nil {
+			if !seen["harness"] {
+				seen["harness"] = true
+				rep.Diverge(common.Divergence{Engine: "udprelay", Case: "race build", Impl: "data race inside the harness", Model: "none", Note: r[:min(1500, len(r))]})
+			}
+			continue
+		}
+		key := "race:" + m[1] + "." + strings.TrimSuffix(m[2], "()")
+		if !seen[key] {
+			seen[key] = true
+			rep.Fail(common.OracleFailure{Engine: "udprelay", Key: key, Case: map[string]any{"kind": "race", "seed": o.Seed + 1000},
+				Detail: "data race reported by the -race build while relaying: " + r[:min(1800, len(r))]})
+		}
+	}
+	rep.Note("race: build %.0fs, child %.0fs, %d relay runs, %d data-race reports", buildT.Seconds(), time.Since(t0).Seconds()-buildT.Seconds(), cr.Evaluations, len(reports)-1)
+}
+
 func main() {
 	o := common.ParseFlags()
 	rep := common.NewReport("C11", o)
@@ -115,6 +205,10 @@ func main() {
 	}
 	switch {
 	case err != nil:
+	case os.Getenv("C11_RACE_CHILD") != "":
+		err = relayEngine(common.NewRng(o.Seed).Fork(1<<40), dns, shared, o, rep)
+	case os.Getenv("C11_RACE_ONLY") != "": // maintenance: only the -race child run
+		raceRun(o, rep)
 	case o.Replay != "":
 		var k AnyCase
 		if err = common.LoadReplay(o.Replay, &k); err != nil {
@@ -163,6 +257,9 @@ func main() {
 		}
 		if err == nil {
 			err = relayEngine(r.Fork(1<<40), dns, shared, o, rep)
+		}
+		if err == nil && o.Thorough() {
+			raceRun(o, rep)
 		}
 	}
 	if err != nil {
